@@ -4,7 +4,7 @@ C05 — ListObjects returns exactly the permitted objects.
 Specification.  `Permitted w I o`: under the reference rules of the world (`CheckV1.idealSys`, the oracle
 semantics of C01) the subject definitely holds the requested relation on `o`.  The universe is the set of
 objects of the requested type that occur as tuple objects (stored or contextual) plus the subject's own
-object when the subject is a userset (`universe`); `result_in_universe` shows the engine never leaves it.
+object when the subject is a userset (`objUniverse`); `result_in_universe` shows the engine never leaves it.
 
 Engine.  `Model.RevExpand`: the classic engine — `GetPrunedRelationshipEdges`, the reverse expansion as a
 worklist with the query-global visited map and the candidate map, the consumer loop with the confirming
@@ -46,7 +46,7 @@ def Permitted (w : World) (I : Interp Node) (o : String) : Prop := D (idealSys w
 def PermittedCode (w : World) (I : Interp Node) (o : String) : Prop := D (sysOf w) I [] (o, w.req.rel)
 
 /-- objects the answer may range over -/
-def universe (w : World) : List String :=
+def objUniverse (w : World) : List String :=
   ((rootNode w).o :: w.all.map (·.obj)).filter (fun o => typeOf o = typeOf w.req.obj)
 
 /-! ## the reverse expansion -/
@@ -102,12 +102,13 @@ theorem result_type (w : World) (fuel lim : Nat) (sched : List Nat) :
   split at ht
   · rename_i hc
     simp only [Bool.and_eq_true, decide_eq_true_eq] at hc
-    cases ht; exact hc.2
+    have := Option.some.inj ht
+    rw [← this]; exact hc.2
   · cases ht
 
 /-- … and is the object of a tuple (stored or contextual) or the subject's own object -/
 theorem result_in_universe (w : World) (fuel lim : Nat) (sched : List Nat) :
-    ∀ p ∈ (reverseExpand w fuel lim sched).out, p.1 ∈ universe w := by
+    ∀ p ∈ (reverseExpand w fuel lim sched).out, p.1 ∈ objUniverse w := by
   intro p hp
   have hty := result_type w fuel lim sched p hp
   obtain ⟨n, hr, ht⟩ := run_out_reach (fgaGraph w (typeOf w.req.obj) w.req.rel fuel) lim sched (rootNode w) p hp
@@ -138,8 +139,9 @@ theorem result_in_universe (w : World) (fuel lim : Nat) (sched : List Nat) :
           exact List.mem_map.mpr ⟨t, htm, rfl⟩
   simp only [fgaGraph, ftarget] at ht
   split at ht
-  · cases ht
-    unfold universe
+  · have hpo := Option.some.inj ht
+    rw [← hpo] at hty ⊢
+    unfold objUniverse
     simp only [List.mem_filter, decide_eq_true_eq]
     refine ⟨?_, hty⟩
     rcases hobj n hr with h | h
@@ -245,25 +247,26 @@ theorem swallowed_error_fails : ¬ FullNoSilentTruncation := by
 object of the requested type on which the subject definitely holds the relation (reference semantics,
 hence also under the code rules) was sent, as a result or as a candidate.  Every schedule. -/
 theorem reverseExpand_complete (w : World) (I : Interp Node) (hwf : WellFormed w.model)
-    (fuel lim : Nat) (sched : List Nat)
+    (hrel : (w.model.findRel (typeOf w.req.obj) w.req.rel).isSome = true) (fuel lim : Nat) (sched : List Nat)
     (hfin : (reverseExpand w fuel lim sched).work = []) (hne : (reverseExpand w fuel lim sched).err = false) :
     ∀ o, typeOf o = typeOf w.req.obj → Permitted w I o →
       o ∈ (reverseExpand w fuel lim sched).out.map Prod.fst := by
   intro o hty hperm
   rw [← reverseExpand_refW] at hfin hne ⊢
-  exact complete_rules (refW w) I hwf fuel lim sched hfin hne o hty hperm
+  exact complete_rules (refW w) I hwf hrel fuel lim sched hfin hne o hty hperm
 
 theorem reverseExpand_complete_code (w : World) (I : Interp Node) (hwf : WellFormed w.model)
-    (fuel lim : Nat) (sched : List Nat)
+    (hrel : (w.model.findRel (typeOf w.req.obj) w.req.rel).isSome = true) (fuel lim : Nat) (sched : List Nat)
     (hfin : (reverseExpand w fuel lim sched).work = []) (hne : (reverseExpand w fuel lim sched).err = false) :
     ∀ o, typeOf o = typeOf w.req.obj → PermittedCode w I o →
       o ∈ (reverseExpand w fuel lim sched).out.map Prod.fst :=
-  complete_rules w I hwf fuel lim sched hfin hne
+  complete_rules w I hwf hrel fuel lim sched hfin hne
 
 /-- **listObjects_complete**: not cut (no deadline, no limit: `limit = 0` or more than the confirmed
 objects), no error, no lost send, Checks untainted ⇒ every permitted object is in the response. -/
 theorem listObjects_complete (w : World) (hw : w.ideal = false) (rkc rkr : Node → Nat)
     (hc : Stratified (sysOf w) rkc) (hr : Stratified (idealSys w) rkr) (hwf : WellFormed w.model)
+    (hrel : (w.model.findRel (typeOf w.req.obj) w.req.rel).isSome = true)
     (fuel lim : Nat) (sched : List Nat) (limit : Nat) (chk : String → CheckRes) (evs : List Ev)
     (hfin : (reverseExpand w fuel lim sched).work = []) (hne : (reverseExpand w fuel lim sched).err = false)
     (hclean : ∀ e ∈ evs, e.clean = true)
@@ -274,7 +277,7 @@ theorem listObjects_complete (w : World) (hw : w.ideal = false) (rkc rkr : Node 
     ∀ o, typeOf o = typeOf w.req.obj → Permitted w (stratInterp (idealSys w) rkr) o →
       o ∈ (response w fuel lim sched limit chk evs).out := by
   intro o hty hperm
-  have hmem := reverseExpand_complete w _ hwf fuel lim sched hfin hne o hty hperm
+  have hmem := reverseExpand_complete w _ hwf hrel fuel lim sched hfin hne o hty hperm
   obtain ⟨p, hp, hpo⟩ := List.mem_map.mp hmem
   -- the object is confirmed: a result, or a candidate whose Check cannot have denied it
   have hconf : isConf chk p = true := by
@@ -312,7 +315,8 @@ theorem tie_try_send_candidate : Gen.ListObjects.trySendCandidateSteps =
     ["if:_, ok := c.candidateObjectsMap.LoadOrStore(candidateObject, struct{}{}); !ok",
      "assign:resultStatus := NoFurtherEvalStatus",
      "if:intersectionOrExclusionInPreviousEdges",
-     "assign:resultStatus = RequiresFurtherEvalStatus"] := by decide
+     "assign:resultStatus = RequiresFurtherEvalStatus",
+     "assign:result := &ReverseExpandResult{Object: candidateObject, ResultStatus: resultStatus}"] := by decide
 
 /-- `trySendObject`: the counter is incremented and compared with `>` before the send -/
 theorem tie_try_send_object : Gen.ListObjects.trySendObjectConds =
@@ -351,9 +355,9 @@ theorem tie_engine_selection : Gen.ListObjects.pipelineGuard =
 
 /-! ## non-vacuity -/
 
-/-- a three-node expansion graph: 0 → 1 (unflagged) → 2 (flagged); 1 and 2 are targets -/
+/-- a three-node expansion graph: 0 → 1 (unflagged) → 2 (flagged), 1 → 1; 1 and 2 are targets -/
 def toyG : Graph Nat :=
-  { succ := fun n => if n = 0 then [(1, false)] else if n = 1 then [(2, true), (0, false)] else [],
+  { succ := fun n => if n = 0 then [(1, false)] else if n = 1 then [(2, true), (1, false)] else [],
     fails := fun _ => false,
     target := fun n => if n = 1 then some "doc:1" else if n = 2 then some "doc:2" else none,
     keyed := fun n => n ≠ 0 }
